@@ -410,9 +410,9 @@ theorem nested_ok (rest : List Char) : ProgramOk nested rest := by
   all_goals first
     | trivial
     | exact leaf_ok _ _ (by decide) (by decide) (by decide) _ (tailOk_cons _ _ (by decide))
-    | exact leaf_ok _ _ (by decide) (by decide) (by decide) _ ⟨true, _, _, rfl, by decide⟩
+    | exact leaf_ok _ _ (by decide) (by decide) (by decide) _ (Or.inr ⟨true, _, _, rfl, by decide⟩)
     | exact tailOk_cons _ _ (by decide)
-    | exact ⟨true, _, _, rfl, by decide⟩
+    | exact (Or.inr ⟨true, _, _, rfl, by decide⟩)
     | skip
 
 
@@ -635,9 +635,9 @@ theorem nested_line_ok (rest : List Char) : LineOk nested rest := by
   all_goals first
     | trivial
     | exact leaf_ok _ _ (by decide) (by decide) (by decide) _ (tailOk_cons _ _ (by decide))
-    | exact leaf_ok _ _ (by decide) (by decide) (by decide) _ ⟨true, _, _, rfl, by decide⟩
+    | exact leaf_ok _ _ (by decide) (by decide) (by decide) _ (Or.inr ⟨true, _, _, rfl, by decide⟩)
     | exact tailOk_cons _ _ (by decide)
-    | exact ⟨true, _, _, rfl, by decide⟩
+    | exact (Or.inr ⟨true, _, _, rfl, by decide⟩)
     | skip
 
 theorem nested2_line_ok (rest : List Char) : LineOk nested2 rest := by
@@ -849,8 +849,7 @@ example : (parseScriptWith 2 "f() { a | b; }\n(c)\n".toList).map (·.map (printL
 
 `List::from_str(printed)` ends at the end of input without a newline.  The word-level statements needed a
 following character; these are their end-of-input twins (only the outermost list of word units can meet the end
-of input: inner lists end at `}` or `"`).  Still open: the structural layers (`TailOk` / `NextOk` with an empty
-tail through pipelines, and-or lists, lists and compound commands). -/
+of input: inner lists end at `}` or `"`).  The structural layers follow in the final-pass section below. -/
 
 /-- ★ a printed word of the fragment followed by the end of input is read back as that word, for every
     delimiter predicate -/
@@ -899,5 +898,58 @@ theorem simple_command_roundtrip_at_end_of_input (c : SimpleCommand) (h : Simple
 example : parseSimple 40 (printSimple arrCmd) = some (some arrCmd, []) :=
   simple_command_roundtrip_at_end_of_input arrCmd
     (simpleOk_assigns _ _ _ _ (by simp [arrCmd, mkSimpleV]) (arrCmd_ok _)) 40 (by decide +kernel)
+
+/-! ## Wave 3 (final pass): the structural layers at the end of input
+
+`TailOk` and `NextOk` now admit the empty tail (`lexToken [] = endOfInput`), the five consumers of `lexToken_tail`
+(`loop_tail`, `pipeTail_rt`, `andOrTail_rt`, `parseRedir_tail`, `parseCommand_simple`) have the end-of-input branch,
+and the list layer has `listEnd_eof`.  So the closed fragment covers what the oracle does:
+`List::from_str(printed)` — the printed program followed directly by the end of input. -/
+
+/-- ★ `structure_roundtrip` with the real end of input: for every program of the closed fragment (now with
+    the empty tail threaded through every node) `parseProgram (printList l) = some (l, [])` — the printed text,
+    WITHOUT a final newline or `)`, is read back as the same tree. -/
+theorem structure_roundtrip_at_end_of_input (l : List Item) (h : ProgramEofOk l) :
+    parseProgram (printList false l) = some (l, []) := parseProgram_eof_rt l h
+
+/-- ★ a script whose last line is not ended by a newline is read back line by line up to the end of input -/
+theorem script_roundtrip_unterminated (ls : List (List Item)) (l : List Item) (hne : l ≠ [])
+    (h : ScriptLastOk ls l) : parseScript (scriptTextLast ls l) = some (ls ++ [l]) := script_last_rt ls l hne h
+
+theorem nested_eof_ok : ProgramEofOk nested := by
+  simp only [ProgramEofOk, nested, it1, ItemsOk, AndOrOk, AndOrRestOk, PipelineOk, CommandsOk, CommandOk,
+    CompoundOk, ElifsOk, RedirsOk, pipeRest, aoRest, printRedirsSp, List.nil_append, List.singleton_append, List.cons_append, ne_eq, reduceCtorEq, not_false_eq_true, List.cons_ne_self, and_true,
+    true_and, Bool.false_eq_true, if_false, if_true, List.append_nil]
+  and_intros
+  all_goals first
+    | trivial
+    | exact Or.inl rfl
+    | exact leaf_ok _ _ (by decide) (by decide) (by decide) _ (tailOk_cons _ _ (by decide))
+    | exact leaf_ok _ _ (by decide) (by decide) (by decide) _ (Or.inr ⟨true, _, _, rfl, by decide⟩)
+    | exact tailOk_cons _ _ (by decide)
+    | exact (Or.inr ⟨true, _, _, rfl, by decide⟩)
+    | skip
+
+theorem nested2_eof_ok : ProgramEofOk nested2 := by
+  simp only [ProgramEofOk, nested2, it1, lw, ItemsOk, AndOrOk, AndOrRestOk, PipelineOk, CommandsOk, CommandOk,
+    CompoundOk, CaseItemsOk, PatsOk, ForWordsOk, ElifsOk, RedirsOk, pipeRest, aoRest, printRedirsSp,
+    List.nil_append, List.singleton_append, List.cons_append, ne_eq, reduceCtorEq, not_false_eq_true,
+    List.cons_ne_self, and_true, true_and, Bool.false_eq_true, if_false, if_true, List.append_nil]
+  and_intros
+  all_goals first
+    | trivial
+    | exact Or.inl rfl
+    | exact leaf_ok _ _ (by decide) (by decide) (by decide) _ (tailOk_cons _ _ (by decide))
+    | exact tailOk_cons _ _ (by decide)
+    | exact plainArg_tok _ (by decide) _
+    | exact ⟨plainArg_tok _ (by decide) _, plainArg_noAssign _ (by decide), by decide, by decide⟩
+
+/-- non-vacuity: both nested programs, printed without anything after them -/
+example : parseProgram (printList false nested) = some (nested, []) :=
+  structure_roundtrip_at_end_of_input nested nested_eof_ok
+example : parseProgram (printList false nested2) = some (nested2, []) :=
+  structure_roundtrip_at_end_of_input nested2 nested2_eof_ok
+example : parseScript (scriptTextLast [nested, []] nested2) = some [nested, [], nested2] :=
+  script_roundtrip_unterminated _ _ (by simp [nested2]) ⟨nested_line_ok _, trivial, nested2_eof_ok⟩
 
 end YashModel.Syntax
